@@ -784,4 +784,126 @@ def itstatSetups (fields func displayOff : β) : Nat → Option (List (String ×
 
 end
 
+/-! ## `scico.util.Timer` over an arbitrary clock
+
+The same transcription as at the top of this file, with the clock values in an arbitrary type `τ`
+(`timeit.default_timer()` returns floats; the theorems take `τ` to be any linearly ordered additive
+group — ℤ, ℚ, ℝ).  Namespace `Clock`; `Arg`, `Op` are shared. -/
+
+namespace Clock
+
+structure Entry (τ : Type) where
+  t0 : Option τ
+  td : τ
+deriving Repr, DecidableEq
+
+abbrev Store (L τ : Type) := List (L × Entry τ)
+
+structure Timer (L τ : Type) where
+  store : Store L τ
+  dflt : L
+  all : L
+deriving Repr
+
+structure Call (L τ : Type) where
+  time : τ
+  op : Op
+  arg : Arg L
+deriving Repr
+
+section
+variable {L τ : Type} [DecidableEq L] [Add τ] [Sub τ] [Zero τ]
+
+def Store.get : Store L τ → L → Option (Entry τ)
+  | [], _ => none
+  | (k, e) :: s, l => if k = l then some e else Store.get s l
+
+def Store.set : Store L τ → L → Entry τ → Store L τ
+  | [], l, e => [(l, e)]
+  | (k, x) :: s, l, e => if k = l then (k, e) :: s else (k, x) :: Store.set s l e
+
+def Store.keys (s : Store L τ) : List L := s.map (·.1)
+
+/-- `self.td[lbl] = 0.0; self.t0[lbl] = None` -/
+def Entry.fresh : Entry τ := ⟨none, 0⟩
+
+def Timer.init (labels : Arg L) (dflt all : L) : Timer L τ :=
+  let ls := match labels with
+    | .none => []
+    | .one l => [l]
+    | .many ls => ls
+  ⟨ls.foldl (fun s l => Store.set s l Entry.fresh) [], dflt, all⟩
+
+def startEntry (e : Entry τ) (t : τ) : Entry τ :=
+  match e.t0 with
+  | none => { e with t0 := some t }
+  | some _ => e
+
+def stopEntry (e : Entry τ) (t : τ) : Entry τ :=
+  match e.t0 with
+  | some s => ⟨none, e.td + (t - s)⟩
+  | none => e
+
+def resetEntry (_e : Entry τ) : Entry τ := ⟨none, 0⟩
+
+def startOne (s : Store L τ) (t : τ) (l : L) : Store L τ :=
+  match Store.get s l with
+  | none => Store.set s l (startEntry Entry.fresh t)
+  | some e => Store.set s l (startEntry e t)
+
+def Timer.startLabels (T : Timer L τ) : Arg L → List L
+  | .none => [T.dflt]
+  | .one l => [l]
+  | .many ls => ls
+
+def Timer.start (T : Timer L τ) (a : Arg L) (t : τ) : Timer L τ :=
+  { T with store := (T.startLabels a).foldl (fun s l => startOne s t l) T.store }
+
+def Timer.targets (T : Timer L τ) : Arg L → List L
+  | .none => if T.dflt = T.all then Store.keys T.store else [T.dflt]
+  | .one l => if l = T.all then Store.keys T.store else [l]
+  | .many ls => ls
+
+def updList (f : Entry τ → Entry τ) : Store L τ → List L → Store L τ × Bool
+  | s, [] => (s, true)
+  | s, l :: ls =>
+    match Store.get s l with
+    | none => (s, false)
+    | some e => updList f (Store.set s l (f e)) ls
+
+def Timer.stop (T : Timer L τ) (a : Arg L) (t : τ) : Timer L τ × Bool :=
+  let r := updList (fun e => stopEntry e t) T.store (T.targets a)
+  ({ T with store := r.1 }, r.2)
+
+def Timer.reset (T : Timer L τ) (a : Arg L) : Timer L τ × Bool :=
+  let r := updList resetEntry T.store (T.targets a)
+  ({ T with store := r.1 }, r.2)
+
+/-- `te = 0.0; if running: te = t - t0; if total: te += td` -/
+def elapsedEntry (e : Entry τ) (total : Bool) (t : τ) : τ :=
+  (match e.t0 with
+   | some s => t - s
+   | none => 0) + (if total then e.td else 0)
+
+def Timer.elapsed (T : Timer L τ) (label : Option L) (total : Bool) (t : τ) : Option τ :=
+  match label with
+  | none =>
+    match Store.get T.store T.dflt with
+    | none => some 0
+    | some e => some (elapsedEntry e total t)
+  | some l => (Store.get T.store l).map (fun e => elapsedEntry e total t)
+
+def Timer.apply (T : Timer L τ) (c : Call L τ) : Timer L τ × Bool :=
+  match c.op with
+  | .start => (T.start c.arg c.time, true)
+  | .stop => T.stop c.arg c.time
+  | .reset => T.reset c.arg
+
+def Timer.run (T : Timer L τ) (h : List (Call L τ)) : Timer L τ :=
+  h.foldl (fun T c => (T.apply c).1) T
+
+end
+
+end Clock
+
 end Scico.Driver
